@@ -97,6 +97,22 @@ class Lock:
         self.f.close()
 
 
+NETNS_PREFIX = ["unshare", "-n", "sh", "-c", 'ip link set lo up && exec "$@"', "sh"]
+_netns = None
+
+
+def netns_available():
+    """can we give each go test run its own loopback (root + unshare + ip present)?"""
+    global _netns
+    if _netns is None:
+        try:
+            rc, out = sh(NETNS_PREFIX + ["true"], timeout=20)
+            _netns = (rc == 0)
+        except Exception:
+            _netns = False
+    return _netns
+
+
 class GlobalLock:
     def __init__(self, path):
         self.path = path
@@ -316,16 +332,20 @@ def run_harness(ctx, pkg, test, ops, timeout=900, extra_env=None, race=False, ta
     cmd.append("./" + pkg + "/")
     # cmd/keymasterd's own dependency_monitor_test.go init() listens on a fixed port: two test
     # binaries of that package must never run at the same time on this machine -> global flock.
-    for attempt in range(4):
-        with GlobalLock("/tmp/.verif-gotest.lock"):
-            rc, log = sh(cmd, cwd=REPO, env=env, timeout=timeout + 120)
-        # a test binary started outside this lock (baseline run, another tool) may hold the port:
-        # that is an environment collision, not a result -> retry
-        if rc != 0 and not os.path.exists(out_path) and (
-                "dependency_monitor_test.go" in log or "address already in use" in log):
-            time.sleep(3 + 4 * attempt)
-            continue
-        break
+    # cmd/keymasterd's own dependency_monitor_test.go init() listens on a fixed port (10638): two
+    # test binaries of that package must never share a loopback. Preferred: a private network
+    # namespace per run (no lock, runs in parallel); fallback: a machine-wide flock + retry.
+    if netns_available():
+        rc, log = sh(NETNS_PREFIX + cmd, cwd=REPO, env=env, timeout=timeout + 120)
+    else:
+        for attempt in range(4):
+            with GlobalLock("/tmp/.verif-gotest.lock"):
+                rc, log = sh(cmd, cwd=REPO, env=env, timeout=timeout + 120)
+            if rc != 0 and not os.path.exists(out_path) and (
+                    "dependency_monitor_test.go" in log or "address already in use" in log):
+                time.sleep(3 + 4 * attempt)
+                continue
+            break
     lines = []
     if os.path.exists(out_path):
         lines = open(out_path).read().split("\n")
